@@ -54,22 +54,6 @@ theorem key_is_lowercase_underscore (name : List Nat) :
   unfold normCp
   split <;> (try split) <;> omega
 
-mutual
-theorem treeEq_iff : ∀ (t u : Tree), treeEq t u = true ↔ t = u
-  | .leaf t o l, .leaf t' o' l' => by
-    simp only [treeEq, Bool.and_eq_true, beq_iff_eq, Tree.leaf.injEq, and_assoc]
-  | .node n cs, .node n' cs' => by
-    simp only [treeEq, Bool.and_eq_true, beq_iff_eq, Tree.node.injEq, treeEqL_iff cs cs']
-  | .leaf _ _ _, .node _ _ => by simp [treeEq]
-  | .node _ _, .leaf _ _ _ => by simp [treeEq]
-theorem treeEqL_iff : ∀ (ts us : List Tree), treeEqL ts us = true ↔ ts = us
-  | [], [] => by simp [treeEqL]
-  | a :: as, b :: bs => by
-    simp only [treeEqL, Bool.and_eq_true, List.cons.injEq, treeEq_iff a b, treeEqL_iff as bs]
-  | [], _ :: _ => by simp [treeEqL]
-  | _ :: _, [] => by simp [treeEqL]
-end
-
 /-- Tree equality is structural: `==` holds iff names, shapes and leaf text, offsets and lengths
 agree; a node never equals a leaf. -/
 theorem eq_iff_structural (t u : Tree) : treeEq t u = true ↔ t = u := treeEq_iff t u
